@@ -50,6 +50,9 @@ func specAST(v interface{}) interface{} {
 
 func realAST(jp *jmespath.JMESPath) interface{} { return specAST(jp.VerifAST()) }
 
+// nodeAST: the AST returned by Parser.Parse in the specification's encoding.
+func nodeAST(n jmespath.ASTNode) interface{} { return specAST(jmespath.VerifAST(n)) }
+
 var tokNames = map[string]string{"tStar": "star", "tDot": "dot", "tFilter": "filter", "tFlatten": "flatten", "tLparen": "lparen", "tRparen": "rparen",
 	"tLbracket": "lbracket", "tRbracket": "rbracket", "tLbrace": "lbrace", "tRbrace": "rbrace", "tOr": "or", "tPipe": "pipe", "tNumber": "number",
 	"tUnquotedIdentifier": "uid", "tQuotedIdentifier": "qid", "tComma": "comma", "tColon": "colon", "tLT": "lt", "tLTE": "lte", "tGT": "gt", "tGTE": "gte",
